@@ -13,6 +13,7 @@ type Node struct {
 	URL      string            `json:"url"`
 	Kind     string            `json:"kind"` // html | bin | m3u8 | redirect | status | fail5xx | fail5xx-big | flaky | refuse | cut
 	Refs     []string          `json:"refs,omitempty"`
+	Links    []string          `json:"links,omitempty"` // anchors of an html page: outlinks when the hop limit allows, never fetched for this seed
 	Location string            `json:"location,omitempty"`
 	Code     int               `json:"code,omitempty"`
 	FailN    int               `json:"fail_n,omitempty"` // flaky: number of 500 answers before the 200
@@ -28,11 +29,14 @@ type SiteDef struct {
 
 const pngMagic = "\x89PNG\r\n\x1a\n\x00\x00\x00\rIHDR\x00\x00\x00\x01\x00\x00\x00\x01\x08\x06\x00\x00\x00"
 
-func htmlBody(refs []string) string {
+func htmlBody(refs []string, links ...string) string {
 	var sb strings.Builder
 	sb.WriteString("<!DOCTYPE html><html><head><title>t</title></head><body>")
 	for _, r := range refs {
 		fmt.Fprintf(&sb, `<img src="%s">`, r)
+	}
+	for _, l := range links {
+		fmt.Fprintf(&sb, `<a href="%s">l</a>`, l)
 	}
 	sb.WriteString("</body></html>")
 	return sb.String()
@@ -55,7 +59,7 @@ func (d *SiteDef) Build() Site {
 		var p Page
 		switch n.Kind {
 		case "html":
-			p.Script = []Resp{{Status: 200, Header: map[string]string{"Content-Type": "text/html; charset=utf-8"}, Body: htmlBody(n.Refs)}}
+			p.Script = []Resp{{Status: 200, Header: map[string]string{"Content-Type": "text/html; charset=utf-8"}, Body: htmlBody(n.Refs, n.Links...)}}
 		case "bin":
 			p.Script = []Resp{{Status: 200, Header: map[string]string{"Content-Type": "image/png"}, Body: pngMagic}}
 		case "m3u8":
